@@ -585,6 +585,12 @@ pub fn build(tier: Tier) -> (Vec<Triple>, Vec<String>) {
         out.push(Triple { env, t: Ty::vec(wide_named), v: Val::Vec(vec![wv(3), wv(67)]), family: "G:big-table" });
     }
     notes.push(format!("G: {} triples", out.len() - n0));
+    // H: length boundaries of text, blobs, vectors, method names and long big numbers (127..65536)
+    let n0 = out.len();
+    for (env, t, v) in length_boundary_cases() {
+        out.push(Triple { env, t, v, family: "H:length-boundaries" });
+    }
+    notes.push(format!("H: {} triples", out.len() - n0));
     (out, notes)
 }
 
@@ -638,7 +644,7 @@ pub fn run(tier: Tier, replay: Option<&str>) -> i32 {
     finish(
         &ctx,
         rep,
-        "triples (environment, type, value): A every primitive and every depth-1 constructor over all 17 primitives with boundary values; B depth-2 types with tiny values; C recursive environments (list, tree, mutual recursion through vec, alias chains, a definition named table0); D function/service references. Per triple (blob spelled as Vec and as Blob): annotate_type(false/true) keeps the meaning and sets variant indices; to_bytes_with_types output is decoded by the strict reference decoder to the same value at an equal type, and by from_bytes_with_types / from_bytes to the same value; to_bytes of the annotated value round-trips. E3: every near-miss (other number width/kind, missing non-optional field, undeclared tag, payload of another tag, other reference kind, one wrong vector element) is accepted by typed encoding and annotate_type(true) iff it is typed under the three stated allowances; annotate_type(false) must only be type safe. E3b: every value that is of the type only through the allowances (nat at int with magnitudes 0, 63, 64, 100, 127, 128, 8191, 8192, 16383, 2^20, 2^21-1, 2^64-1; null / reserved at opt; anything at reserved; absent null/opt/reserved field; float64 literal at float32), at every position, must be accepted and the message must denote its normal form at the type (strict reference decoder, and from_bytes_with_types). Family G: type tables with more than 64 entries (opt nested 70 deep; records of 66 fields of pairwise different composite types, inline and through 66 definitions). Family F: aliases of every primitive, directly and through a chain, at every constructor position. Plus IDLValue::try_from_candid_type on every small value of the Rust corpus.",
+        "triples (environment, type, value): A every primitive and every depth-1 constructor over all 17 primitives with boundary values; B depth-2 types with tiny values; C recursive environments (list, tree, mutual recursion through vec, alias chains, a definition named table0); D function/service references. Per triple (blob spelled as Vec and as Blob): annotate_type(false/true) keeps the meaning and sets variant indices; to_bytes_with_types output is decoded by the strict reference decoder to the same value at an equal type, and by from_bytes_with_types / from_bytes to the same value; to_bytes of the annotated value round-trips. E3: every near-miss (other number width/kind, missing non-optional field, undeclared tag, payload of another tag, other reference kind, one wrong vector element) is accepted by typed encoding and annotate_type(true) iff it is typed under the three stated allowances; annotate_type(false) must only be type safe. E3b: every value that is of the type only through the allowances (nat at int with magnitudes 0, 63, 64, 100, 127, 128, 8191, 8192, 16383, 2^20, 2^21-1, 2^64-1; null / reserved at opt; anything at reserved; absent null/opt/reserved field; float64 literal at float32), at every position, must be accepted and the message must denote its normal form at the type (strict reference decoder, and from_bytes_with_types). Family G: type tables with more than 64 entries (opt nested 70 deep; records of 66 fields of pairwise different composite types, inline and through 66 definitions). Family H: text, blobs, vectors and method names whose length sits at 127/128, 255/256/257, 300, 16383/16384, 65535/65536 (ASCII and with a multi-byte character across the boundary), big numbers with 130- and 300-byte LEB128 forms, each alone, under opt, in a record, in a vector and as a variant payload. Family F: aliases of every primitive, directly and through a chain, at every constructor position. Plus IDLValue::try_from_candid_type on every small value of the Rust corpus.",
         &["R1 typing judgement, R2 strict decoder, R3 equality", "extra record fields and missing optional fields are not treated as near-misses (annotation documents width subtyping / field defaults)"],
         json!({}),
     )
